@@ -14,6 +14,7 @@ import (
 	"gosim/hb"
 
 	"github.com/tsuna/gohbase"
+	"github.com/tsuna/gohbase/filter"
 	"github.com/tsuna/gohbase/hrpc"
 	"github.com/tsuna/gohbase/pb"
 	"github.com/tsuna/gohbase/region"
@@ -76,6 +77,7 @@ type OpRec struct {
 
 // World ties the client under test to the simulated environment.
 type World struct {
+	filterOpt       func(hrpc.Call) error
 	Env             *Env
 	Plan            *Plan
 	Client          gohbase.Client
@@ -564,6 +566,11 @@ func (w *World) runScan(rec *OpRec) {
 	if op.ScanClose {
 		opts = append(opts, hrpc.CloseScanner())
 	}
+	if op.Filter {
+		// one option value shared by every scan of the run, as an application
+		// that keeps its scan options in a variable does
+		opts = append(opts, w.filterOpt)
+	}
 	if op.Prio > 0 {
 		opts = append(opts, hrpc.Priority(op.Prio))
 	}
@@ -685,3 +692,8 @@ func (w *World) cancelOp(task, idx, slot int) {
 }
 
 var _ = hb.TypePut
+
+// pageAll is the page size of the shared scan filter: large enough to let every row pass.
+const pageAll = int64(1) << 40
+
+func newFilterOpt() func(hrpc.Call) error { return hrpc.Filters(filter.NewPageFilter(pageAll)) }
